@@ -449,8 +449,11 @@ class Gen:
             b = self.cat_atom(fam, avoid=a.used) if r.random() < 0.5 else self.num_atom(fam)
             if b.used & a.used:
                 return a
-            text = r.choice([f"{a.text} * {b.text} - {a.text}:{b.text}", f"{a.text} + {b.text} - {b.text}",
-                             f"({a.text} + {b.text}) ** 2 - {a.text}"])
+            which = r.randrange(3)
+            if which == 1:
+                # b is added and removed again: the model (and the set of used columns) is that of a alone
+                return Item(f"{a.text} + {b.text} - {b.text}", a.used, a.cats, a.fams | {"minus"})
+            text = [f"{a.text} * {b.text} - {a.text}:{b.text}", None, f"({a.text} + {b.text}) ** 2 - {a.text}"][which]
             return Item(text, a.used | b.used, a.cats | b.cats, a.fams | b.fams | {"minus"})
         if kind == "slash":
             a = self.cat_atom(fam)
